@@ -196,6 +196,7 @@ def _work(item):
 def _validate_batch(batch):
     mod = _W["mod"]
     bad = []
+    viol = []
     n = 0
     for task, inputs, outcome in batch:
         try:
@@ -203,9 +204,11 @@ def _validate_batch(batch):
         except BaseException as e:
             r = "validate raised %s: %s" % (type(e).__name__, e)
         n += 1
-        if r:
+        if isinstance(r, dict):
+            viol.append((task, inputs, r))
+        elif r:
             bad.append((task["id"], inputs, _jsonable(outcome), r))
-    return n, bad
+    return n, bad, viol
 
 
 def _replay_one(args):
@@ -236,7 +239,7 @@ def run_check(modname, tier, seed, canary=None, quiet=False):
     pid = mod.PROPERTY_ID
     tasks = mod.tasks(tier, seed)
     by_id = {t["id"]: t for t in tasks}
-    budget = getattr(mod, "BUDGET_S", {"quick": 600, "thorough": 3600})[tier]
+    budget = int(os.environ.get("VERIF_BUDGET_S") or getattr(mod, "BUDGET_S", {"quick": 600, "thorough": 3600})[tier])
     deadline = t0 + budget
     ctxm = mp.get_context("fork")
     sym_pool = ProcessPoolExecutor(NPROC, mp_context=ctxm, initializer=_sym_init, initargs=(modname, canary))
@@ -265,6 +268,7 @@ def run_check(modname, tier, seed, canary=None, quiet=False):
     ifconv = None
     validated = 0
     mismatches = []
+    val_violations = []  # violations found while validating paths on the plain code (already reproduced)
     pending = deque((t, None, 2.0, 100000) for t in tasks)
     inflight = {}
     vflight = set()
@@ -311,9 +315,10 @@ def run_check(modname, tier, seed, canary=None, quiet=False):
                 timed_out = True
                 break
         for fu in list(vflight):
-            n, bad = fu.result()
+            n, bad, viol = fu.result()
             validated += n
             mismatches.extend(bad)
+            val_violations.extend(viol)
     finally:
         _kill_pool(sym_pool)
     if timed_out:
@@ -337,11 +342,20 @@ def run_check(modname, tier, seed, canary=None, quiet=False):
     for t in todo:
         k = (t[0]["id"], t[1], json.dumps(_jsonable(t[2]), sort_keys=True), json.dumps(_jsonable(t[3]), sort_keys=True))
         uniq.setdefault(k, t)
-    todo = list(uniq.values())
+    todo = []
+    per_label = Counter()
+    for t in uniq.values():
+        lk = (t[0]["id"], t[1])
+        per_label[lk] += 1
+        if per_label[lk] <= getattr(mod, "REPLAYS_PER_LABEL", 3):
+            todo.append(t)
     cap = getattr(mod, "REPLAY_CAP", 400)
     results = list(plain_pool.map(_replay_one, todo[:cap], chunksize=4)) if todo else []
     _kill_pool(plain_pool)
-    for (task, label, inputs, extra), rr in zip(todo[:cap], results):
+    for task, inputs, rr in val_violations:
+        todo.insert(0, (task, rr.get("label", "validation"), inputs, rr.get("extra")))
+        results.insert(0, dict(rr, reproduced=True))
+    for (task, label, inputs, extra), rr in zip(todo[: cap + len(val_violations)], results):
         if not rr.get("reproduced"):
             engine_mismatch.append((task["id"], label, rr.get("detail", "")[:500]))
             continue
@@ -456,6 +470,10 @@ def run_check(modname, tier, seed, canary=None, quiet=False):
         "violations": len(violations),
     }
     if not quiet:
+        if os.environ.get("VERIF_VERBOSE"):
+            left = Counter(it[0]["id"] for it in list(pending) + list(inflight.values()))
+            for tid, n in per_task_paths.most_common(25):
+                print("  task %-40s paths=%d leftover_items=%d" % (tid, n, left.get(tid, 0)))
         for l in lines:
             print(l)
         print(
